@@ -39,6 +39,7 @@ pub fn main_entry() {
 		"shard" => shard(&args[2], &args[3], args[4].parse().unwrap(), args[5].parse().unwrap(), Path::new(&args[6])),
 		"replay" => replay(&args[2], Path::new(&args[3])),
 		"lock-child" => crate::props::c18::child_main(&args[2]),
+		"kill-child" => crate::props::c02::kill_child_main(&args[2], &args[3]),
 		_ => {
 			eprintln!("unknown command");
 			2
@@ -91,7 +92,15 @@ fn replay(id: &str, path: &Path) -> i32 {
 		},
 	};
 	let ctx = make_ctx(&p, "replay", 0, 1);
-	let r = (p.replay)(&ctx, path);
+	// The library iterates over std HashMaps (per-process random order) when a transaction
+	// spans several columns, so the same stop-point index can denote a different instant in
+	// another process: a replay is repeated a few times and fails if any repetition fails.
+	let mut r = (p.replay)(&ctx, path);
+	let mut reps = 1;
+	while r.is_ok() && reps < 6 {
+		r = (p.replay)(&ctx, path);
+		reps += 1;
+	}
 	let _ = std::fs::remove_dir_all(&ctx.scratch);
 	match r {
 		Ok(()) => {
